@@ -806,6 +806,12 @@ func runChurn(t *testing.T, p churnRun, d *directObs) {
 						s.mu.Unlock()
 					case ev := <-s.events:
 						if b, ok := ev.Event.(chain.Block); ok {
+							if b.Number == nil {
+								// a Listener being stopped reads zero blocks from its closed source channel
+								// until its done channel closes; only seen after VerifStop
+								d.count("zero_blocks_from_stopping_listener", 1)
+								continue
+							}
 							s.mu.Lock()
 							s.got = append(s.got, b)
 							s.mu.Unlock()
